@@ -365,6 +365,32 @@ def version_family():
     return out
 
 
+def fungible_family():
+    """small types exercising every specialisation of IsFungible: sequence-like
+    containers of integral / non-integral / wrapped elements, tuples and pairs of
+    matching and non-matching arity, maps, logical buffers of several capacities"""
+    vec = lambda t: ('seq', ('vec',), t)
+    arr = lambda n, t, ca=False: ('seq', ('arr', ca, n), t)
+    lbuf = lambda cap, sk, t, ca=True: ('seq', ('lbuf', ca, cap, sk, False), t)
+    st = lambda *ts: ('tup', 'struct', list(ts))
+    tup = lambda *ts: ('tup', 'tuple', list(ts))
+    out = []
+    w32 = ('wrap', 1, S('i32'))
+    for e in (S('i32'), S('f32'), ('str', 1), w32):
+        out += [vec(e), arr(2, e), arr(3, e), arr(2, e, True), tup(e, e), tup(e, e, e), ('tup', 'pair', [e, e]), tup(e)]
+    out += [tup(S('i32'), S('f32')), ('tup', 'pair', [S('i32'), S('f32')]), tup(S('f32'), S('i32'))]
+    out += [('map', False, S('i32'), ('str', 1)), ('map', True, S('i32'), ('str', 1))]
+    out += [st(lbuf(2, 'u8', S('i32'))), st(lbuf(2, 'i64', S('i32'), False)), st(lbuf(3, 'u8', S('i32'))), st(vec(S('i32'))),
+            st(lbuf(2, 'u8', S('f32'))), st(vec(S('f32'))), st(arr(2, S('i32'))), st(lbuf(2, 'u16', w32))]
+    out += [('opt', S('i32')), ('opt', w32), ('res', 1, 'i32', S('i32')), ('res', 2, 'u8', S('i32')), ('res', 1, 'i32', w32),
+            ('var', [S('i32'), ('str', 1)]), ('var', [w32, ('str', 1)]), ('var', [('str', 1), S('i32')]), S('i32'), w32, ('wrap', 3, w32)]
+    seen, res = set(), []
+    for t in out:
+        if desc(t) not in seen:
+            seen.add(desc(t)); res.append(t)
+    return res
+
+
 def core_pool():
     """Deterministic pool: every constructor x integer kind x integral/non-integral
     elements x small arities.  Returns a list of types."""
@@ -419,9 +445,14 @@ def core_pool():
     t4 = ('tab', 0, [(1, True, h0), (2, True, ('opt', S('u8')))])
     P += [t1, t2, t3, t4, st(t1, S('u16')), vec(t2)]
     P += version_family()
+    P += fungible_family()
     # finding K1: Optional/Result whose payload can itself start with NIL/ERR (not prefix-disjoint)
     P += [('opt', ('opt', S('u8'))), ('res', 1, 'i32', ('res', 2, 'u8', S('u8')))]
-    return P
+    seen, out = set(), []
+    for t in P:
+        if desc(t) not in seen:
+            seen.add(desc(t)); out.append(t)
+    return out
 
 
 # ----------------------------------------------------------- value generation --
